@@ -54,7 +54,7 @@ func textKindOf(w *World) (*textKind, error) {
 	for _, call := range callsIn(k.Execute, func(c *ssa.CallCommon) bool { return staticCallee(c) != nil }) {
 		f := staticCallee(call.Common())
 		if f.Signature.Recv() != nil && types.Identical(f.Signature.Recv().Type(), k.SearchT) && f.Signature.Results().Len() == 2 &&
-			types.TypeString(f.Signature.Results().At(0).Type(), qual) == "[]TextResult" {
+			tstr(f.Signature.Results().At(0).Type(), qual) == "[]TextResult" {
 			k.Single = f
 		}
 	}
@@ -102,7 +102,7 @@ func ruleBM25ADM(r *Run, rule string, k *textKind) {
 	c := NewCanon(w)
 	var sinks []*ssa.MapUpdate
 	for _, mu := range mapUpdatesOf(fn) {
-		if _, ok := mu.Map.Type().Underlying().(*types.Map); ok && types.TypeString(mu.Map.Type(), nil) == "map[uint32]float64" {
+		if _, ok := mu.Map.Type().Underlying().(*types.Map); ok && tstr(mu.Map.Type(), nil) == "map[uint32]float64" {
 			sinks = append(sinks, mu)
 		}
 	}
@@ -192,7 +192,7 @@ func ruleBM25Formula(r *Run, rule string, k *textKind) {
 	r.Doc(rule, "scores are not Okapi BM25 with idf = ln((N-df+0.5)/(df+0.5)+1)")
 	var sink *ssa.MapUpdate
 	for _, mu := range mapUpdatesOf(fn) {
-		if types.TypeString(mu.Map.Type(), nil) == "map[uint32]float64" {
+		if tstr(mu.Map.Type(), nil) == "map[uint32]float64" {
 			sink = mu
 		}
 	}
